@@ -299,6 +299,13 @@ KERNELS = [
          loc=("if_containing", "l2 != 31 and"), typ="Nat", subst={"request_l1": "r1", "l1": "a", "l2": "b"},
          params="(r1 a b : Nat)", obl="(r1 a b : Nat)", call="r1 a b", model="(b ≠ 31 ∧ a ≠ r1)",
          imports=["Model.Chain"], unfold=[]),
+    # _gkdi.GroupKeyEnvelope.get_kek / new_kek: math.ceil(private_key_length / 8)
+    dict(name="CeilPrivLenGet", props=["C03"], file="_gkdi.py", func="GroupKeyEnvelope.get_kek", loc=("call_kw", "compute_kek_from_public_key", "private_key_length"),
+         typ="Nat", subst={"self.private_key_length": "n"}, params="(n : Nat)", obl="(n : Nat)", call="n", model="(n + 7) / 8",
+         imports=["Model.Py"], unfold=[]),
+    dict(name="CeilPrivLenNew", props=["C03", "C19"], file="_gkdi.py", func="GroupKeyEnvelope.new_kek", loc=("assign", "private_key"),
+         typ="Nat", subst={"self.private_key_length": "n"}, params="(n : Nat)", obl="(n : Nat)", call="n", model="(n + 7) / 8",
+         imports=["Model.Py"], unfold=[], unwrap_call="os.urandom"),
     dict(name="TlvLowTag", props=["C07", "C06"], file="_asn1.py", func="_pack_asn1", kind="prop",
          loc=("if_containing", "tag_number"), typ="Nat", subst={"tag_number": "n"},
          params="(n : Nat)", obl="(n : Nat)", call="n", model="(n < 31)", imports=["Model.Asn1"],
@@ -322,6 +329,11 @@ def generate(k: dict) -> dict:
         tree = ast.parse(open(path).read())
         fn = find_function(tree, k["func"])
         node = locate(fn, k["loc"])
+        if k.get("unwrap_call"):
+            if isinstance(node, ast.Call) and ast.unparse(node.func) == k["unwrap_call"] and len(node.args) == 1:
+                node = node.args[0]
+            else:
+                raise Unsupported(f"expected a call to {k['unwrap_call']}")
         out["python"] = ast.unparse(node)
         out["line"] = getattr(node, "lineno", None)
         consts = local_constants(fn)
